@@ -23,6 +23,12 @@ type SolverStats struct {
 }
 
 var gStats SolverStats
+
+// solverDeadline: once the harness' exploration budget (plus a grace period) is over, queries
+// answer "unknown" at once so that paths stuck in sequences of hard queries end promptly.
+var solverDeadline atomic.Int64
+
+func setSolverDeadline(t time.Time) { solverDeadline.Store(t.UnixNano()) }
 var solverMode = "incremental"
 var incrBudgetMs int64 = 30
 
@@ -240,6 +246,9 @@ func (s *Solver) Check(pc []*Term, extra *Term) string {
 func (s *Solver) CheckModel(pc []*Term, extra *Term, vars []*Term) (string, map[string]*big.Int) {
 	if extra != nil && extra.IsFalse() {
 		return "unsat", nil
+	}
+	if d := solverDeadline.Load(); d != 0 && time.Now().UnixNano() > d {
+		return "unknown", nil
 	}
 	t0 := time.Now()
 	defer func() {
